@@ -21,33 +21,48 @@ type seg struct {
 	S int    `json:"s"`
 }
 
+type caseFields struct {
+	Ty    string `json:"ty"`
+	Ver   int    `json:"ver"`
+	Clean int    `json:"clean"`
+	Will  int    `json:"will"`
+	Wq    int    `json:"wq"`
+	Wr    int    `json:"wr"`
+	Wtl   int    `json:"wtl"`
+	Wml   int    `json:"wml"`
+	Ul    int    `json:"ul"`
+	Pwl   int    `json:"pwl"`
+	Ka    int    `json:"ka"`
+	Cidl  int    `json:"cidl"`
+	Sp    int    `json:"sp"`
+	Code  int    `json:"code"`
+	Dup   int    `json:"dup"`
+	Q     int    `json:"q"`
+	R     int    `json:"r"`
+	Tl    int    `json:"tl"`
+	ID    int    `json:"id"`
+	Pl    int    `json:"pl"`
+	K     int    `json:"k"`
+	Pat   int    `json:"pat"`
+	Tl1   int    `json:"tl1"`
+}
+
+// length of the i-th filter (1-based) of a SUBSCRIBE / UNSUBSCRIBE case
+func (k *caseFields) tlOf(i int) int {
+	if i == 1 && k.Tl1 > 0 {
+		return k.Tl1
+	}
+	return k.Tl
+}
+
 type codecCase struct {
-	Case struct {
-		Ty    string `json:"ty"`
-		Ver   int    `json:"ver"`
-		Clean int    `json:"clean"`
-		Will  int    `json:"will"`
-		Wq    int    `json:"wq"`
-		Wr    int    `json:"wr"`
-		Wtl   int    `json:"wtl"`
-		Wml   int    `json:"wml"`
-		Ul    int    `json:"ul"`
-		Pwl   int    `json:"pwl"`
-		Ka    int    `json:"ka"`
-		Cidl  int    `json:"cidl"`
-		Sp    int    `json:"sp"`
-		Code  int    `json:"code"`
-		Dup   int    `json:"dup"`
-		Q     int    `json:"q"`
-		R     int    `json:"r"`
-		Tl    int    `json:"tl"`
-		ID    int    `json:"id"`
-		Pl    int    `json:"pl"`
-		K     int    `json:"k"`
-		Pat   int    `json:"pat"`
-	} `json:"case"`
-	Wire []seg `json:"wire"`
-	Len  int   `json:"len"`
+	Case  caseFields  `json:"case"`
+	Wire  []seg       `json:"wire"`
+	Len   int         `json:"len"`
+	Pad   int         `json:"pad"`  // > 0: the remaining length is padded by this many bytes (decode direction only)
+	From  *caseFields `json:"from"` // != nil: decode WFrom, then set the fields of Case through the setters
+	WFrom []seg       `json:"wfrom"`
+	Auto  bool        `json:"auto"` // the packet identifier is left to the library
 }
 
 const fillAlpha = "abcdefghijklmnopqrstuvwxyz0123456789"
@@ -94,7 +109,7 @@ func subCode(pat, i int) byte {
 
 // build constructs the message through the public setters
 func buildCase(c *codecCase) (message.Message, error) {
-	k := c.Case
+	k := &c.Case
 	switch k.Ty {
 	case "CONNECT":
 		m := message.NewConnectMessage()
@@ -170,7 +185,7 @@ func buildCase(c *codecCase) (message.Message, error) {
 		m := message.NewSubscribeMessage()
 		m.SetPacketID(uint16(k.ID))
 		for i := 1; i <= k.K; i++ {
-			if err := m.AddTopic(fillBytes(k.Tl, 10+i), subQos(k.Pat, i)); err != nil {
+			if err := m.AddTopic(fillBytes(k.tlOf(i), 10+i), subQos(k.Pat, i)); err != nil {
 				return nil, err
 			}
 		}
@@ -179,7 +194,7 @@ func buildCase(c *codecCase) (message.Message, error) {
 		m := message.NewUnsubscribeMessage()
 		m.SetPacketID(uint16(k.ID))
 		for i := 1; i <= k.K; i++ {
-			m.AddTopic(fillBytes(k.Tl, 10+i))
+			m.AddTopic(fillBytes(k.tlOf(i), 10+i))
 		}
 		return m, nil
 	case "SUBACK":
@@ -210,7 +225,7 @@ var typeByName = map[string]message.Type{"CONNECT": message.CONNECT, "CONNACK": 
 
 // fieldsOf renders the fields of a decoded message for comparison with the case
 func fieldsEqual(c *codecCase, m message.Message) string {
-	k := c.Case
+	k := &c.Case
 	eq := func(name string, got, want interface{}) string {
 		if !reflect.DeepEqual(got, want) {
 			g, w := fmt.Sprint(got), fmt.Sprint(want)
@@ -263,14 +278,14 @@ func fieldsEqual(c *codecCase, m message.Message) string {
 		add(eq("PacketID", int(x.PacketID()), k.ID))
 		add(eq("len(Topics)", len(x.Topics()), k.K))
 		for i := 1; i <= k.K && i <= len(x.Topics()); i++ {
-			add(eq(fmt.Sprintf("Topics[%d]", i-1), b2(x.Topics()[i-1]), fillBytes(k.Tl, 10+i)))
+			add(eq(fmt.Sprintf("Topics[%d]", i-1), b2(x.Topics()[i-1]), fillBytes(k.tlOf(i), 10+i)))
 			add(eq(fmt.Sprintf("Qos[%d]", i-1), x.Qos()[i-1], subQos(k.Pat, i)))
 		}
 	case *message.UnsubscribeMessage:
 		add(eq("PacketID", int(x.PacketID()), k.ID))
 		add(eq("len(Topics)", len(x.Topics()), k.K))
 		for i := 1; i <= k.K && i <= len(x.Topics()); i++ {
-			add(eq(fmt.Sprintf("Topics[%d]", i-1), b2(x.Topics()[i-1]), fillBytes(k.Tl, 10+i)))
+			add(eq(fmt.Sprintf("Topics[%d]", i-1), b2(x.Topics()[i-1]), fillBytes(k.tlOf(i), 10+i)))
 		}
 	case *message.SubackMessage:
 		add(eq("PacketID", int(x.PacketID()), k.ID))
@@ -315,6 +330,14 @@ func codecCheck(c *codecCase, res *Result) {
 	}()
 	if len(wire) != c.Len {
 		fatal("harness: expansion of %s has %d bytes, specification says %d", desc(), len(wire), c.Len)
+	}
+	if c.Pad > 0 {
+		padCheck(c, wire, res, kind())
+		return
+	}
+	if c.From != nil {
+		modCheck(c, wire, res, kind())
+		return
 	}
 	m, err := buildCase(c)
 	if err != nil {
@@ -398,6 +421,205 @@ func codecCheck(c *codecCase, res *Result) {
 	}
 }
 
+// padCheck: the reference packet with a non-minimal remaining length. A decoder may refuse it; if it accepts it, byte
+// count and fields are those of the packet and re-encoding reproduces the bytes; it never panics.
+func padCheck(c *codecCase, wire []byte, res *Result, kind string) {
+	rep := map[string]interface{}{"case": c.Case, "pad": c.Pad, "bytes": fmt.Sprintf("%x", wire[:minInt(len(wire), 24)])}
+	res.Steps++
+	dec, _ := typeByName[c.Case.Ty].New()
+	in := append([]byte(nil), wire...)
+	var n int
+	var err error
+	func() {
+		defer func() {
+			if r := recover(); r != nil {
+				res.mismatch(Mismatch{What: fmt.Sprintf("%s, remaining length padded by %d byte(s): Decode panics: %v", kind, c.Pad, r), Tag: "C04", Replay: rep})
+				n = -1
+			}
+		}()
+		n, err = dec.Decode(in[:len(in):len(in)])
+	}()
+	if n < 0 {
+		return
+	}
+	if err != nil {
+		res.Counts["padded_refused"]++
+		return
+	}
+	res.Counts["padded_accepted"]++
+	if n != len(wire) {
+		res.mismatch(Mismatch{What: fmt.Sprintf("%s, remaining length padded by %d byte(s): Decode accepts the packet and consumes %d of its %d bytes", kind, c.Pad, n, len(wire)), Tag: "C04", Replay: rep})
+		return
+	}
+	if d := fieldsEqual(c, dec); d != "" {
+		res.mismatch(Mismatch{What: fmt.Sprintf("%s, remaining length padded by %d byte(s): Decode accepts the packet with wrong fields: %s", kind, c.Pad, d), Tag: "C04", Replay: rep})
+		return
+	}
+	func() {
+		defer func() {
+			if r := recover(); r != nil {
+				res.mismatch(Mismatch{What: fmt.Sprintf("%s, remaining length padded by %d byte(s): re-encoding the accepted packet panics: %v", kind, c.Pad, r), Tag: "C03", Replay: rep})
+			}
+		}()
+		buf := make([]byte, len(wire)+8)
+		m, err := dec.Encode(buf)
+		if err != nil || !bytes.Equal(buf[:m], wire) {
+			res.mismatch(Mismatch{What: fmt.Sprintf("%s, remaining length padded by %d byte(s): re-encoding the accepted packet does not reproduce its bytes (n=%d err=%v)", kind, c.Pad, m, err), Tag: "C03", Replay: rep})
+		}
+	}()
+}
+
+func minInt(a, b int) int {
+	if a < b {
+		return a
+	}
+	return b
+}
+
+// modCheck: decode the wire form of c.From, set the fields in which c.Case differs through the setters, encode:
+// Len() and the bytes must be those of c.Case.
+func modCheck(c *codecCase, wire []byte, res *Result, kind string) {
+	from, to := c.From, &c.Case
+	wfrom, _ := expand(c.WFrom)
+	rep := map[string]interface{}{"decoded": from, "then_set": to, "auto_id": c.Auto}
+	fail := func(what string) {
+		res.mismatch(Mismatch{What: kind + " changed after Decode: " + what, Tag: "C03", Replay: rep})
+	}
+	defer func() {
+		if r := recover(); r != nil {
+			fail(fmt.Sprintf("panic: %v", r))
+		}
+	}()
+	res.Steps++
+	dec, _ := typeByName[from.Ty].New()
+	// as in the broker: the packet sits in a larger buffer, followed by other bytes
+	in := append(append([]byte(nil), wfrom...), 0xc0, 0x00)
+	if n, err := dec.Decode(in); err != nil || n != len(wfrom) {
+		fail(fmt.Sprintf("Decode of the reference bytes: n=%d err=%v", n, err))
+		return
+	}
+	var calls []string
+	switch m := dec.(type) {
+	case *message.PublishMessage:
+		if from.Tl != to.Tl {
+			m.SetTopic(fillBytes(to.Tl, 1))
+			calls = append(calls, "SetTopic")
+		}
+		if from.Pl != to.Pl {
+			m.SetPayload(fillBytes(to.Pl, 2))
+			calls = append(calls, "SetPayload")
+		}
+		if from.Q != to.Q {
+			m.SetQoS(byte(to.Q))
+			calls = append(calls, fmt.Sprintf("SetQoS(%d)", to.Q))
+		}
+		if from.R != to.R {
+			m.SetRetain(to.R == 1)
+			calls = append(calls, "SetRetain")
+		}
+		if to.Q > 0 && !c.Auto && (from.Q == 0 || from.ID != to.ID) {
+			m.SetPacketID(uint16(to.ID))
+			calls = append(calls, "SetPacketID")
+		}
+	case *message.ConnectMessage:
+		if from.Clean != to.Clean {
+			m.SetCleanSession(to.Clean == 1)
+			calls = append(calls, "SetCleanSession")
+		}
+		if from.Ka != to.Ka {
+			m.SetKeepAlive(uint16(to.Ka))
+			calls = append(calls, "SetKeepAlive")
+		}
+		if from.Cidl != to.Cidl {
+			m.SetClientID(fillBytes(to.Cidl, 3))
+			calls = append(calls, "SetClientID")
+		}
+		if from.Will != to.Will || from.Wq != to.Wq || from.Wr != to.Wr || from.Wtl != to.Wtl || from.Wml != to.Wml {
+			if to.Will == 1 {
+				m.SetWillTopic(fillBytes(to.Wtl, 4))
+				m.SetWillMessage(fillBytes(to.Wml, 5))
+				m.SetWillQos(byte(to.Wq))
+				m.SetWillRetain(to.Wr == 1)
+				calls = append(calls, "SetWill*")
+			} else {
+				m.SetWillTopic(nil)
+				m.SetWillMessage(nil)
+				m.SetWillQos(0)
+				m.SetWillRetain(false)
+				m.SetWillFlag(false)
+				calls = append(calls, "clear will")
+			}
+		}
+		if from.Ul != to.Ul || from.Pwl != to.Pwl {
+			m.SetUsername(fillBytes(to.Ul, 6))
+			m.SetPassword(fillBytes(to.Pwl, 7))
+			calls = append(calls, "SetUsername/SetPassword")
+		}
+	case *message.SubscribeMessage:
+		for i := from.K + 1; i <= to.K; i++ {
+			m.AddTopic(fillBytes(to.tlOf(i), 10+i), subQos(to.Pat, i))
+			calls = append(calls, "AddTopic")
+		}
+		for i := from.K; i > to.K; i-- {
+			m.RemoveTopic(fillBytes(from.tlOf(i), 10+i))
+			calls = append(calls, "RemoveTopic")
+		}
+	case *message.UnsubscribeMessage:
+		for i := from.K + 1; i <= to.K; i++ {
+			m.AddTopic(fillBytes(to.tlOf(i), 10+i))
+			calls = append(calls, "AddTopic")
+		}
+		for i := from.K; i > to.K; i-- {
+			m.RemoveTopic(fillBytes(from.tlOf(i), 10+i))
+			calls = append(calls, "RemoveTopic")
+		}
+	default:
+		fatal("harness: no modification defined for %s", from.Ty)
+	}
+	rep["calls"] = calls
+	how := strings.Join(calls, ", ")
+	if l := dec.Len(); l != c.Len {
+		fail(fmt.Sprintf("after %s, Len() = %d, the packet with these fields has %d bytes", how, l, c.Len))
+		return
+	}
+	buf := make([]byte, c.Len)
+	n, err := dec.Encode(buf)
+	if err != nil || n != c.Len {
+		fail(fmt.Sprintf("after %s, Encode returns n=%d err=%v, the packet with these fields has %d bytes", how, n, err, c.Len))
+		return
+	}
+	want := append([]byte(nil), wire...)
+	if c.Auto {
+		// the identifier the library chose: non-zero, at its place in the packet (after the topic)
+		at := len(wire) - to.Pl - 2
+		id := int(buf[at])<<8 | int(buf[at+1])
+		if id == 0 || id != int(dec.PacketID()) {
+			fail(fmt.Sprintf("after %s (identifier left to the library), the packet carries identifier %d, PacketID() = %d", how, id, dec.PacketID()))
+			return
+		}
+		want[at], want[at+1] = buf[at], buf[at+1]
+	}
+	if !bytes.Equal(buf, want) {
+		i := 0
+		for i < len(buf) && buf[i] == want[i] {
+			i++
+		}
+		fail(fmt.Sprintf("after %s, Encode bytes differ from the wire form of the new fields at offset %d (got %#x, want %#x)", how, i, buf[i], want[i]))
+		return
+	}
+	// and the result decodes to the new fields
+	chk, _ := typeByName[to.Ty].New()
+	if n, err := chk.Decode(buf[:len(buf):len(buf)]); err != nil || n != c.Len {
+		fail(fmt.Sprintf("after %s, the encoded packet does not decode (n=%d err=%v)", how, n, err))
+		return
+	}
+	if !c.Auto {
+		if d := fieldsEqual(c, chk); d != "" {
+			fail(fmt.Sprintf("after %s, the encoded packet decodes to other fields: %s", how, d))
+		}
+	}
+}
+
 func clsLen(n int) int {
 	switch {
 	case n == 0:
@@ -439,6 +661,10 @@ func cmdCodecIDs(a Args) {
 	res := newResult()
 	n := a.num("n", 131073)
 	zero := 0
+	// requests numbered one after the other can all be in flight together: any 32 consecutive automatic identifiers
+	// must be pairwise distinct (C12)
+	const window = 32
+	var recent [window]uint16
 	for i := 0; i < n; i++ {
 		var m message.Message
 		var ty string
@@ -485,6 +711,16 @@ func cmdCodecIDs(a Args) {
 			zero++
 			res.mismatch(Mismatch{What: fmt.Sprintf("%s with automatic packet id: %s", ty, bad), Tag: "C03",
 				Replay: map[string]interface{}{"encode_number": i + 1, "type": ty}})
+		}
+		if id := m.PacketID(); id != 0 {
+			for j := 0; j < window && j < i; j++ {
+				if recent[j] == id {
+					res.mismatch(Mismatch{What: fmt.Sprintf("automatic packet identifier %d assigned to two of %d consecutively numbered requests (encode number %d)", id, window, i+1), Tag: "C12",
+						Replay: map[string]interface{}{"encode_number": i + 1, "type": ty, "id": id}})
+					break
+				}
+			}
+			recent[i%window] = id
 		}
 	}
 	res.Steps = n
